@@ -176,6 +176,10 @@ namespace pika::detail {
 
         for (std::size_t num_thread = 0; num_thread < num_threads; /**/)
         {
+            // every round over the cores has to place at least one thread: once all usable
+            // processing units of the cores are taken the request cannot be satisfied
+            std::size_t const num_thread_before_round = num_thread;
+
             for (std::size_t num_core = 0; num_core < num_cores; ++num_core)
             {
                 if (threads::detail::any(affinities[num_thread]))
@@ -208,6 +212,15 @@ namespace pika::detail {
                     t.init_thread_affinity_mask(num_core + used_cores, next_pu_index[num_core] - 1);
 
                 if (++num_thread == num_threads) return;
+            }
+
+            if (num_thread == num_thread_before_round)
+            {
+                PIKA_THROWS_IF(ec, pika::error::bad_parameter, "decode_scatter_distribution",
+                    "the number of threads ({}) is larger than the number of processing units "
+                    "available on the {} cores to use ({} threads could be placed)",
+                    num_threads, num_cores, num_thread);
+                return;
             }
         }
     }
@@ -242,6 +255,10 @@ namespace pika::detail {
         // cores
         for (std::size_t num_thread = 0; num_thread < num_threads; /**/)
         {
+            // every round over the cores has to place at least one thread: once all usable
+            // processing units of the cores are taken the request cannot be satisfied
+            std::size_t const num_thread_before_round = num_thread;
+
             for (std::size_t num_core = 0; num_core < num_cores; ++num_core)
             {
                 std::size_t num_core_pus = t.get_number_of_core_pus(num_core);
@@ -265,6 +282,15 @@ namespace pika::detail {
 
                 num_pus_cores[num_core]++;
                 if (++num_thread == num_threads) break;
+            }
+
+            if (num_thread == num_thread_before_round)
+            {
+                PIKA_THROWS_IF(ec, pika::error::bad_parameter, "decode_balanced_distribution",
+                    "the number of threads ({}) is larger than the number of processing units "
+                    "available on the {} cores to use ({} threads could be placed)",
+                    num_threads, num_cores, num_thread);
+                return;
             }
         }
 
